@@ -172,7 +172,12 @@ def body(chk):
             if sc != scalar:
                 continue
             if cur != name:
-                lines.append('  printf("\\nI %s|%s\\n"); fflush(stdout); masa_init<%s>("%s_%s","%s");' % (scalar.replace(' ', '_'), name, cxx, name, 'd' if scalar == 'double' else 'e', name))
+                h_ = '%s_%s' % (name, 'd' if scalar == 'double' else 'e')
+                lines.append('  printf("\\nI %s|%s\\n"); fflush(stdout); masa_init<%s>("%s","%s");' % (scalar.replace(' ', '_'), name, cxx, h_, name))
+                # masa_init of an EXISTING handle with the same solution also yields a usable default instance (whatever was done to the old one)
+                lines.append('  masa_purge_default_param<%s>(); masa_init<%s>("%s","%s"); printf("\\nR %s|%s|reinit-after-purge %%d 0\\n", (int)(masa_sanity_check<%s>()==0));'
+                             % (cxx, cxx, h_, name, scalar.replace(' ', '_'), name, cxx))
+                expected += 1
                 cur = name
             pts = ['0.37', '0.41', '0.43', '0.47']
             parts = sg.split(',') if sg else []
